@@ -102,39 +102,78 @@ _NP_RANDOM_OTHERS = ["beta", "binomial", "bytes", "chisquare", "choice", "dirich
 
 
 class Scripted:
-    """numpy.random for the duration of one call into tempest.mcmc: every equivalent API is served from the SAME scripted
-    quantities - standard normals (randn / standard_normal / normal), uniforms (rand / random / random_sample / ranf / sample /
-    uniform, and as -log U through standard_exponential / exponential), the tpCN mixing variable (gamma(shape, scale) returns G,
-    standard_gamma(shape) returns G / scale where scale is the specification's 2/(nu+delta) of the walker being proposed).
+    """numpy.random for the duration of one call into tempest.mcmc.  The scripted quantities are keyed by walker and by
+    kind, not by global call order, and every equivalent API is served from the SAME quantities:
+      standard normals  normals[sweep][walker] = list of innovation vectors (more than one only for redraw behaviours):
+                        randn / standard_normal / normal, one walker at a time (walkers in order) or batched (n, d);
+      uniforms          uniforms[sweep] = accept uniforms of all walkers: rand / random / random_sample / ranf / sample /
+                        uniform, and as -log U through standard_exponential / exponential; serving them ends the sweep;
+      mixing variable   gammas[walker] = (G, scale) with scale the specification's 2/(nu+delta): gamma(shape, scale) returns
+                        G, standard_gamma(shape) returns G/scale, chisquare(df) returns 2G/scale (so that
+                        (nu+delta)/chisquare = 1/G); scalar (walkers in order) or per-walker arrays; before or after
+                        the normals.
     Anything else on numpy.random raises BindingLost."""
 
-    def __init__(self, np, normals=(), uniforms=(), gammas=(), normal_fn=None, uniform_fn=None):
+    def __init__(self, np, normals=None, uniforms=(), gammas=(), normal_fn=None, uniform_fn=None):
         self.np = np
-        self.zq, self.uq, self.gq = list(normals), list(uniforms), list(gammas)
-        self.nz = self.nu = self.ng = 0
-        self.gparams = []
+        self.Z = [[list(w) for w in sw] for sw in (normals or [])]
+        self.cz = [[0] * len(sw) for sw in self.Z]
+        self.s = self.w = 0
+        self.uq = list(uniforms)
+        self.nu = 0
+        self.G = list(gammas)
+        self.ng = 0
+        self.gparams = [None] * len(self.G)
         self.normal_fn, self.uniform_fn = normal_fn, uniform_fn
         self._saved = {}
+
+    @property
+    def nz(self):
+        return sum(sum(c) for c in self.cz)
+
+    @property
+    def nz_scripted(self):
+        return sum(len(w) for sw in self.Z for w in sw)
+
+    def under(self):
+        return any(c < len(w) for sw, cs in zip(self.Z, self.cz) for w, c in zip(sw, cs))
 
     # ---- providers
     @staticmethod
     def _shape(size):
         if size is None:
             return ()
-        return tuple(size) if isinstance(size, (tuple, list)) else (int(size),)
+        return tuple(int(x) for x in size) if isinstance(size, (tuple, list)) else (int(size),)
 
     def _z(self, shape):
         np = self.np
         k = int(np.prod(shape)) if shape else 1
         if self.normal_fn is not None:
             return np.asarray(self.normal_fn(k), dtype=float).reshape(shape)
-        if self.nz >= len(self.zq):
-            raise Exhausted()
-        v = self.zq[self.nz]
-        if len(v) != k:
-            raise BindingLost(f"{k} standard normals requested at once, the specification's innovation has {len(v)} coordinates")
-        self.nz += 1
-        return np.array(v, dtype=float).reshape(shape)
+        if self.s >= len(self.Z):
+            raise BindingLost("standard normals requested after the last scripted sweep")
+        Zs, cs = self.Z[self.s], self.cz[self.s]
+        d = len(Zs[0][0])
+        if k % d:
+            raise BindingLost(f"{k} standard normals requested at once, innovations have {d} coordinates")
+        m = k // d
+        if m == 1:   # one walker at a time, walkers in order; a walker may draw again (redraw behaviours)
+            while self.w < len(Zs) and cs[self.w] >= len(Zs[self.w]):
+                self.w += 1
+            if self.w >= len(Zs):
+                raise Exhausted()
+            v = Zs[self.w][cs[self.w]]
+            cs[self.w] += 1
+            if cs[self.w] >= len(Zs[self.w]):
+                self.w += 1
+            return np.array(v, dtype=float).reshape(shape)
+        if self.w + m > len(Zs) or any(cs[self.w + i] for i in range(m)):
+            raise BindingLost(f"batched request of {m} innovation vectors, {len(Zs) - self.w} walkers left in the sweep")
+        out = np.array([Zs[self.w + i][0] for i in range(m)], dtype=float)
+        for i in range(m):
+            cs[self.w + i] = 1
+        self.w += m
+        return out.reshape(shape)
 
     def _u(self, shape):
         np = self.np
@@ -147,27 +186,46 @@ class Scripted:
         if len(v) != k:
             raise BindingLost(f"{k} uniforms requested at once, {len(v)} walkers scripted")
         self.nu += 1
+        self.s, self.w = self.s + 1, 0     # the accept uniforms close the sweep
         return np.array(v, dtype=float).reshape(shape)
 
-    def _g(self, shape, scale, size):
-        if size is not None:
-            raise BindingLost("vectorised gamma draw")
-        if self.ng >= len(self.gq):
-            raise BindingLost("more gamma draws than proposals scripted")
-        g, sc = self.gq[self.ng]
-        self.ng += 1
-        self.gparams.append((float(shape), None if scale is None else float(scale)))
-        return g if scale is not None else g / sc
+    def _g(self, kind, shape, scale, size):
+        np = self.np
+        parts = [np.ndim(shape)] + ([np.ndim(scale)] if scale is not None else [])
+        arr = max(parts) > 0 or size is not None
+        m = max([int(np.size(shape))] + ([int(np.size(scale))] if scale is not None else []) + ([int(np.prod(self._shape(size)))] if size is not None else []))
+        if self.ng + m > len(self.G):
+            raise BindingLost("more mixing-variable draws than proposals scripted")
+        sh = np.broadcast_to(np.asarray(shape, dtype=float), (m,))
+        sc = None if scale is None else np.broadcast_to(np.asarray(scale, dtype=float), (m,))
+        out = np.empty(m)
+        for i in range(m):
+            g, sc_spec = self.G[self.ng + i]
+            if kind == "chisquare":          # df = 2 * shape ; chi2(df) = 2 * Gamma(df/2, 1)
+                self.gparams[self.ng + i] = (float(sh[i]) / 2.0, None)
+                out[i] = 2.0 * g / sc_spec
+            elif sc is None:                 # standard_gamma(shape) = Gamma(shape, 1)
+                self.gparams[self.ng + i] = (float(sh[i]), None)
+                out[i] = g / sc_spec
+            else:
+                self.gparams[self.ng + i] = (float(sh[i]), float(sc[i]))
+                out[i] = g
+        self.ng += m
+        if not arr:
+            return float(out[0])
+        return out.reshape(self._shape(size)) if size is not None else out
+
+    def _neglog(self, u):
+        with self.np.errstate(divide="ignore"):
+            return -self.np.log(u)
 
     def __enter__(self):
-        np, R = self.np, self.np.random
-        with np.errstate(divide="ignore"):
-            pass
+        R = self.np.random
         stubs = {
-            "randn": lambda *sh: self._z(tuple(sh)),
+            "randn": lambda *sh: self._z(tuple(int(x) for x in sh)),
             "standard_normal": lambda size=None: self._z(self._shape(size)),
             "normal": lambda loc=0.0, scale=1.0, size=None: loc + scale * self._z(self._shape(size)),
-            "rand": lambda *sh: self._u(tuple(sh)),
+            "rand": lambda *sh: self._u(tuple(int(x) for x in sh)),
             "random": lambda size=None: self._u(self._shape(size)),
             "random_sample": lambda size=None: self._u(self._shape(size)),
             "ranf": lambda size=None: self._u(self._shape(size)),
@@ -175,21 +233,17 @@ class Scripted:
             "uniform": lambda low=0.0, high=1.0, size=None: low + (high - low) * self._u(self._shape(size)),
             "standard_exponential": lambda size=None: self._neglog(self._u(self._shape(size))),
             "exponential": lambda scale=1.0, size=None: scale * self._neglog(self._u(self._shape(size))),
-            "gamma": lambda shape, scale=1.0, size=None: self._g(shape, scale, size),
-            "standard_gamma": lambda shape, size=None: self._g(shape, None, size),
+            "gamma": lambda shape, scale=1.0, size=None: self._g("gamma", shape, scale, size),
+            "standard_gamma": lambda shape, size=None: self._g("standard_gamma", shape, None, size),
+            "chisquare": lambda df, size=None: self._g("chisquare", df, None, size),
         }
         for name in _NP_RANDOM_OTHERS:
-            if hasattr(R, name):
+            if hasattr(R, name) and name not in stubs:
                 stubs[name] = (lambda nm: (lambda *a, **k: (_ for _ in ()).throw(BindingLost(f"numpy.random.{nm} called from the kernel"))))(name)
         for name, fn in stubs.items():
             self._saved[name] = getattr(R, name)
             setattr(R, name, fn)
         return self
-
-    def _neglog(self, u):
-        np = self.np
-        with np.errstate(divide="ignore"):
-            return -np.log(u)
 
     def __exit__(self, *exc):
         for name, fn in self._saved.items():
@@ -365,7 +419,7 @@ class SweepReplayer:
         l0 = np.array([e[i] * LN2 for i in ix0])
         b0 = np.array([blob_of(i) for i in ix0])
         labels = np.array([t["lab"] - 1 for t in trans], dtype=int)
-        zq = [np.array(z, dtype=float) for k in range(ns) for t in trans for z in t["sweeps"][k]["zs"]]
+        zq = [[[np.array(z, dtype=float) for z in t["sweeps"][k]["zs"]] for t in trans] for k in range(ns)]
         rq = []
         for k in range(ns):
             rs = []
@@ -417,7 +471,7 @@ class SweepReplayer:
         finally:
             _verif.set_sink(None)
             self.mcmc.RWMRunner._initialize_sigmas = o_init
-        under = sr.nz != len(zq)
+        under = sr.under()
 
         def differs(got, want):
             got = np.asarray(got, dtype=float)
@@ -462,7 +516,7 @@ class SweepReplayer:
         if bad:
             return Res("value", bad, under)
         if under:
-            return Res("under", f"the code consumed {sr.nz} innovation vectors, the specification's behaviour has {len(zq)}", True)
+            return Res("under", f"the code consumed {sr.nz} innovation vectors, the specification's behaviour has {sr.nz_scripted}", True)
         if sr.nu != ns:
             return lost(f"{sr.nu} uniform draws consumed in {ns} scripted sweeps")
         if ns == 1:
@@ -725,6 +779,36 @@ def tpcn_runner(np, mcmc, modes_mod, mode, M, kinds, U, nu=None):
     return r, ms, h * Lm
 
 
+def propose_group(np, runner, zss, gammas):
+    """The tpCN proposals of all walkers of `runner` with scripted innovations zss[k] (list of vectors) and mixing variables
+    gammas[k] = (G, scale): through the entry the library itself uses - the batched _propose_all() when the runner has
+    one, one walker at a time through _propose(k) otherwise (or when the batched entry draws again for some walker).
+    -> list of per-walker dict(got, gp, nz, over, lost)"""
+    n = len(zss)
+    if hasattr(runner, "_propose_all"):
+        sr = Scripted(np, normals=[[[np.array(z, dtype=float) for z in zs] for zs in zss]], gammas=gammas)
+        try:
+            with sr:
+                P = np.asarray(runner._propose_all(), dtype=float)
+            return [dict(got=P[k], gp=sr.gparams[k], nz=sr.cz[0][k], over=False, lost=None) for k in range(n)]
+        except Exhausted:
+            pass   # some walker drew again: the entry works walker by walker, so do the same below
+        except BindingLost as ex:
+            return [dict(got=None, gp=None, nz=0, over=False, lost=str(ex))] * n
+    out = []
+    for k in range(n):
+        sr = Scripted(np, normals=[[[np.array(z, dtype=float) for z in zss[k]]]], gammas=[gammas[k]])
+        try:
+            with sr:
+                got = runner._propose(k)
+            out.append(dict(got=np.asarray(got, dtype=float), gp=sr.gparams[0], nz=sr.nz, over=False, lost=None))
+        except Exhausted:
+            out.append(dict(got=None, gp=sr.gparams[0], nz=sr.nz, over=True, lost=None))
+        except BindingLost as ex:
+            out.append(dict(got=None, gp=None, nz=0, over=False, lost=str(ex)))
+    return out
+
+
 def replay_tpcn(ck, np, mcmc, modes_mod, modes, M, res):
     """-> dict of counters.  Every `done` state: the real _propose with stubbed gamma / randn; every `factor` state:
     the real _compute_acceptance_factor.  Hard-wall rule: a state `outside` (first draw out of the cube) is final under
@@ -750,25 +834,23 @@ def replay_tpcn(ck, np, mcmc, modes_mod, modes, M, res):
         runner, ms, hL = tpcn_runner(np, mcmc, modes_mod, mode, M, kinds, U)
         if np.array_equal(ms.chol_covariances[0], hL):
             cnt["chol_exact"] += 1
+        outs = propose_group(np, runner, [s["zs"] for s in sts],
+                             [(4.0 / (s["sq2"] * s["sq2"]), s["scale"][0] / s["scale"][1]) for s in sts])
+        cnt["batched_entry"] = cnt.get("batched_entry", 0) + int(hasattr(runner, "_propose_all"))
         for k, s in enumerate(sts):
-            zq = [np.array(z, dtype=float) for z in s["zs"]]
-            sc_spec = s["scale"][0] / s["scale"][1]
-            sr = Scripted(np, normals=zq, gammas=[(4.0 / (s["sq2"] * s["sq2"]), sc_spec)])
-            bad = None
-            over = False
-            try:
-                with sr:
-                    got = runner._propose(k)
-            except Exhausted:
-                got, bad, over = None, "the code drew more innovations than the specification's behaviour", True
-            except BindingLost as ex:
-                lost(str(ex))
+            o = outs[k]
+            if o["lost"]:
+                lost(o["lost"])
                 continue
+            zq = s["zs"]
+            sc_spec = s["scale"][0] / s["scale"][1]
+            got, over = o["got"], o["over"]
+            bad = "the code drew more innovations than the specification's behaviour" if over else None
             cnt["propose"] += 1
             want = [Fraction(f, PD * 2 * M) for f in s["fol"]]
-            bad_rule = over or sr.nz != len(zq)   # the number of innovations drawn identifies the hard-wall rule
+            bad_rule = over or o["nz"] != len(zq)   # the number of innovations drawn identifies the hard-wall rule
             if bad is None and not bad_rule:
-                gp = sr.gparams
+                gp = [o["gp"]] if o["gp"] else []
                 if got is None or np.shape(got) != (d,) or any(abs(float(g) - float(w)) > TOL * max(1.0, abs(float(w))) for g, w in zip(got, want)):
                     bad = f"proposal {np.asarray(got).tolist()!r}, specification {[str(w) for w in want]}" + ("" if gp else " (no gamma / standard_gamma draw was made)")
                 elif gp and gp[0][0] != s["shape2"] / 2.0:
@@ -779,7 +861,7 @@ def replay_tpcn(ck, np, mcmc, modes_mod, modes, M, res):
                     lost(f"{len(gp)} gamma draws in one proposal although the proposal agrees with the specification")
                     continue
             elif bad is None:
-                bad = f"{sr.nz} innovation vectors consumed, specification {len(zq)}"
+                bad = f"{o['nz']} innovation vectors consumed, specification {len(zq)}"
             payload = {"mode": mode, "kinds": list(kinds), "state": s, "M": M}
             if s["pc"] == "outside" or len(s["zs"]) > 1:   # behaviours that discriminate the two hard-wall rules
                 which = "int" if s["pc"] == "outside" else "impl"
@@ -798,7 +880,7 @@ def replay_tpcn(ck, np, mcmc, modes_mod, modes, M, res):
                 ck.violation(key, bad, payload)
             elif len(ck.samples) < 5 and any(kd != "hard" for kd in kinds) and list(s["prop"]) != list(s["fol"]):
                 ck.sample({"tpcn_propose": {"mode": mode, "kinds": list(kinds), "c": s["c"], "sq2": s["sq2"], "zs": s["zs"],
-                                            "gamma_shape_scale": (sr.gparams or [None])[0], "proposal": [float(g) for g in got], "spec": [str(w) for w in want]}})
+                                            "gamma_shape_scale": o["gp"], "proposal": [float(g) for g in got], "spec": [str(w) for w in want]}})
     if tally["impl_bad"] == 0 and tally["int_ok"] == 0 and tally["impl_ok"]:
         cnt["hardwall_rule"] = "impl"
     elif tally["int_bad"] == 0 and tally["impl_ok"] == 0 and tally["int_ok"]:
@@ -849,18 +931,18 @@ def replay_tpcn_float(ck, np, mcmc, modes_mod, modes, M, res, nus=(2.5, 7.3), li
             d = mode["d"]
             U = np.array([[c * h for c in s["c"]] for s in sts])
             runner, _, _ = tpcn_runner(np, mcmc, modes_mod, mode, M, ("hard",) * d, U, nu=nu)
+            scales = [2.0 / (nu + s["qf"][0] / s["qf"][1]) for s in sts]
+            outs = propose_group(np, runner, [s["zs"][:1] for s in sts], [(4.0 / (s["sq2"] ** 2), sc) for s, sc in zip(sts, scales)])
             for k, s in enumerate(sts):
-                w_shape, w_scale = (d + nu) / 2, 2.0 / (nu + s["qf"][0] / s["qf"][1])
-                sr = Scripted(np, normals=[np.array(s["zs"][0], dtype=float)], gammas=[(4.0 / (s["sq2"] ** 2), w_scale)])
-                try:
-                    with sr:
-                        got = runner._propose(k)
-                except (Exhausted, BindingLost) as ex:
-                    lost(f"real nu: {ex!r}")
+                w_shape, w_scale = (d + nu) / 2, scales[k]
+                o = outs[k]
+                if o["lost"] or o["over"] or o["got"] is None:
+                    lost(f"real nu: {o['lost'] or 'more innovations drawn than scripted'}")
                     continue
+                got = o["got"]
                 n_eval += 1
                 want = [float(Fraction(f, PD * 2 * M)) for f in s["fol"]]
-                rec = sr.gparams
+                rec = [o["gp"]] if o["gp"] else []
                 bad = None
                 if any(abs(float(g) - w) > TOL * max(1.0, abs(w)) for g, w in zip(got, want)):
                     bad = f"proposal {got.tolist()}, specification {want}"
@@ -934,7 +1016,7 @@ def entry_tpcn(ck, np, mcmc, modes_mod, modes, M, res, limit):
                 l0 = np.full(n, -np.inf)
             inside_sweep["on"] = True
             gq = [(4.0 / (s["sq2"] * s["sq2"]), s["scale"][0] / s["scale"][1]) for s in chunk]
-            zq = [np.array(s["zs"][0], dtype=float) for s in chunk]
+            zq = [[[np.array(s["zs"][0], dtype=float)] for s in chunk]]
             sr = Scripted(np, normals=zq, uniforms=[np.zeros(n)], gammas=gq)
             o_init = mcmc.TPCNRunner._initialize_sigmas
             mcmc.TPCNRunner._initialize_sigmas = lambda r_: np.ones(r_.n_clusters) * 0.6
